@@ -311,9 +311,32 @@ PERM_GOALS = {
                                  {"a": "Leave", "s": "s2", "t": "g1", "unsub": False, "chan": False},
                                  {"a": "Pub", "s": "s1", "t": "g1", "c": "c1", "noecho": False, "chan": False}]),
 }
+# goals followed by an account suspension (the tail's "ROOT" is replaced by the population's root session); C03
+def _pub(s, t, c="c1"):
+    return {"a": "Pub", "s": s, "t": t, "c": c, "noecho": False, "chan": False}
+SUSP_GOALS = {
+    "suspend_owner_of_loaded_group": ('st.topics["g1"].exists /\\ "g1" \\in M(st.sess["s1"].subs) /\\ "g1" \\in M(st.sess["s2"].subs) /\\ st.topics["g1"].owner = "u1" '
+                                      '/\\ "W" \\in Eff(st.subs["g1"]["u2"])',
+                                      [_pub("s2", "g1"), {"a": "Suspend", "s": "ROOT", "u": "u1", "on": True}, _pub("s2", "g1", "c2"),
+                                       {"a": "Reload", "t": "g1"}, _pub("s2", "g1", "c2"),
+                                       {"a": "Suspend", "s": "ROOT", "u": "u1", "on": False}, _pub("s2", "g1"),
+                                       {"a": "Suspend", "s": "ROOT", "u": "u2", "on": True}, {"a": "Suspend", "s": "ROOT", "u": "u2", "on": False}]),
+    "suspend_p2p_participant": ('st.topics["p12"].exists /\\ Len(st.cache["p12"].att) >= 2 /\\ "p12" \\in M(st.sess["s1"].subs) /\\ "p12" \\in M(st.sess["s2"].subs)',
+                                [_pub("s2", "p12"), {"a": "Suspend", "s": "ROOT", "u": "u1", "on": True}, _pub("s2", "p12", "c2"),
+                                 {"a": "Reload", "t": "p12"}, _pub("s2", "p12", "c2"),
+                                 {"a": "Suspend", "s": "ROOT", "u": "u1", "on": False}, _pub("s2", "p12")]),
+    "suspend_while_others_loaded": ('st.topics["g1"].exists /\\ st.topics["p12"].exists /\\ st.cache["g1"].loaded /\\ st.cache["p12"].loaded '
+                                    '/\\ "g1" \\in M(st.sess["s2"].subs) /\\ "p12" \\in M(st.sess["s2"].subs) /\\ st.topics["g1"].owner = "u1" /\\ "W" \\in Eff(st.subs["g1"]["u2"])',
+                                    [{"a": "Sub", "s": "s2", "t": "me", "mode": ["-"], "chan": False, "bg": False},
+                                     {"a": "Sub", "s": "s2", "t": "fnd", "mode": ["-"], "chan": False, "bg": False},
+                                     {"a": "Sub", "s": "s3", "t": "me", "mode": ["-"], "chan": False, "bg": False},
+                                     {"a": "Sub", "s": "s3", "t": "fnd", "mode": ["-"], "chan": False, "bg": False},
+                                     {"a": "Suspend", "s": "ROOT", "u": "u1", "on": True}, _pub("s2", "g1", "c2"), _pub("s2", "p12", "c2"),
+                                     {"a": "Suspend", "s": "ROOT", "u": "u1", "on": False}, _pub("s2", "g1"), _pub("s2", "p12")]),
+}
 
 
-def goal_behaviours(ctx, users, sess, topics, names=None, maxsubs=3, marks=False, perms=False):
+def goal_behaviours(ctx, users, sess, topics, names=None, maxsubs=3, marks=False, perms=False, suspend_root=None):
     import concurrent.futures
     goals = dict(GOALS)
     p2p = "p12" in topics
@@ -323,23 +346,29 @@ def goal_behaviours(ctx, users, sess, topics, names=None, maxsubs=3, marks=False
         goals.update(MARK_GOALS)
     if perms:
         goals.update(PERM_GOALS)
+    if suspend_root:
+        for k, (e, tail) in SUSP_GOALS.items():
+            if "p12" in e and not p2p:
+                continue
+            goals[k] = (e, json.loads(json.dumps(tail).replace('"ROOT"', json.dumps(suspend_root))))
     names = names or list(goals)
     # a goal that speaks of users or sessions outside this population does not apply to it
     import re as _re
     def _applies(nm):
         txt = goals[nm][0] + json.dumps(goals[nm][1])
-        return all(x in users for x in _re.findall(r'"(u\d+)"', txt)) and all(x in sess for x in _re.findall(r'"(s\d+)"', txt))
+        return all(x in users for x in _re.findall(r'"(u\d+)"', txt)) and all(x in sess or x == suspend_root for x in _re.findall(r'"(s\d+)"', txt))
     names = [nm for nm in names if _applies(nm)]
     consts = mc_consts(users, sess, topics, DEV_BUILT, ["-", "N", "JR", "JRS", "JRA", "JRASO"], ["-", "N", "JR", "JRS", "JRAS", "JRASO"],
                        ["NewGrp", "Sub", "Leave", "SetSelf", "SetOther", "DelSub", "DelTopic", "Unload"], [], maxsubs=maxsubs)
     consts_p2p = mc_consts(users, sess, topics, DEV_BUILT, ["-"], ["-"], ["P2P"], [], maxseq=3, maxsubs=maxsubs)
+    consts_susp = mc_consts(users, sess, topics, DEV_BUILT, ["-", "JRW"], ["-", "JRW"], ["NewGrp", "Sub", "P2P"], [], maxseq=1, maxsubs=maxsubs)
     consts_perms = mc_consts(users, sess, topics, DEV_BUILT, ["-", "JWP", "JRW"], ["-", "JRWP"], ["NewGrp", "Sub", "SetSelf"], [], maxsubs=maxsubs)
     consts_marks = mc_consts(users, sess, topics, DEV_BUILT, ["-", "JRW"], ["-", "JRW"], ["NewGrp", "Sub", "Pub", "Note"], [], maxseq=3, maxsubs=maxsubs)
 
     def one(name):
         expr, tail = goals[name]
         mod = "Goal_" + name
-        cs = consts_p2p if name in P2P_GOALS else consts_marks if name in MARK_GOALS else consts_perms if name in PERM_GOALS else consts
+        cs = consts_susp if name in SUSP_GOALS else consts_p2p if name in P2P_GOALS else consts_marks if name in MARK_GOALS else consts_perms if name in PERM_GOALS else consts
         defs = "\n".join("c_%s == %s" % (k, v) for k, v in cs.items())
         with open(os.path.join(ctx.specdir, mod + ".tla"), "w") as fh:
             fh.write("---- MODULE %s ----\nEXTENDS TopicCore_MC\n%s\nNotGoal == ~(%s)\n====\n" % (mod, defs, expr))
